@@ -926,10 +926,7 @@ func pythonPath() string {
 }
 
 func generateTable(c *fw.Ctx) map[string]int64 {
-	script := fw.Root + "/engine/internal/c10/oracle.py"
-	if _, err := os.Stat(script); err != nil {
-		script = filepath.Join(engineDir(), "internal", "c10", "oracle.py")
-	}
+	script := filepath.Join(fw.EngineDir(), "internal", "c10", "oracle.py")
 	const nparts = 4
 	var wg sync.WaitGroup
 	errs := make([]error, nparts)
